@@ -4,6 +4,7 @@ from typing import TYPE_CHECKING, Callable, Deque, Dict, List, NamedTuple, Optio
 
 from django.utils.safestring import mark_safe
 
+from django_components.perfutil.provide import unregister_provide_reference
 from django_components.util.exception import component_error_message
 
 if TYPE_CHECKING:
@@ -196,6 +197,32 @@ def component_post_render(
             html_parts_by_component_id[component_id] = []
         return html_parts_by_component_id[component_id]
 
+    try:
+        output = _process_post_render_queue(
+            process_queue, html_parts_by_component_id, content_parts, get_html_parts, on_component_rendered_callbacks
+        )
+    except Exception:
+        # Rendering is abandoned. Forget everything that was registered for this component tree - both the
+        # components that were not rendered yet, and those whose rendering was interrupted by the error.
+        for component_id in [render_id, *on_component_rendered_callbacks.keys()]:
+            component_renderer_cache.pop(component_id, None)
+            child_component_attrs.pop(component_id, None)
+            component_context_cache.pop(component_id, None)
+            unregister_provide_reference(component_id)
+        raise
+
+    output = on_html_rendered(output)
+
+    return mark_safe(output)
+
+
+def _process_post_render_queue(
+    process_queue: Deque[PostRenderQueueItem],
+    html_parts_by_component_id: Dict[str, List[str]],
+    content_parts: List[str],
+    get_html_parts: Callable[[str], List[str]],
+    on_component_rendered_callbacks: Dict[str, Callable[[str], str]],
+) -> str:
     while len(process_queue):
         curr_item = process_queue.popleft()
 
@@ -295,8 +322,4 @@ def component_post_render(
         process_queue.extendleft(reversed(parts_to_process))
 
     # Lastly, join up all pieces of the component's HTML content
-    output = "".join(content_parts)
-
-    output = on_html_rendered(output)
-
-    return mark_safe(output)
+    return "".join(content_parts)
